@@ -36,7 +36,7 @@ def check(ctx, src):
     g = fold._parent
     AT = boolfn.Atoms(O="orelse is None", C="catchers")
     v, why = boolfn.decide([fold], t, AT, lambda e: (not e["O"]) and not e["C"], must_depend_on=("C",))
-    ctx.decide("TRY-ELSE", f"{R}|compile_try_expression|fold-guard", v, f"else forms are appended to the body under another condition than `else present and no except clause` ({why}); "
+    ctx.decide_tt("TRY-ELSE", f"{R}|compile_try_expression|fold-guard", v, f"else forms are appended to the body under another condition than `else present and no except clause` ({why}); "
                "otherwise an exception raised in else is caught by this try's own handlers", R, fold.lineno,
                witness="(try 1 (except [ValueError] \"caught\") (else (raise (ValueError))))", detail="orelse is not None and not catchers")
     reset = isinstance(g, ast.If) and any(norm(s) == "orelse = None" for s in g.body)
@@ -132,7 +132,7 @@ def check(ctx, src):
         tops = [n for n in ast.walk(lp) if isinstance(n, ast.AugAssign) and isinstance(n.target, ast.Name) and isinstance(n.value, ast.Name) and n.value.id == mv]
         ATW = boolfn.Atoms(Z=f"{iv} == 0", N=f"isinstance({mv}, Result)")
         v, why = boolfn.decide(tops, wf, ATW, lambda e: e["Z"] and not e["N"], must_depend_on=("Z",), ignore=("was_async is None", "is_async != was_async", "is_async == was_async", "was_async is not None"))
-        ctx.decide("WITH-TEMP", f"{R}|compile_with_expression|first-manager-only", v, f"the statements of a manager expression are placed in front of the whole `with` under another condition than `first manager` ({why}): "
+        ctx.decide_tt("WITH-TEMP", f"{R}|compile_with_expression|first-manager-only", v, f"the statements of a manager expression are placed in front of the whole `with` under another condition than `first manager` ({why}): "
                    "a later manager's statements then run before the earlier managers are entered", R, wf.lineno,
                    witness="(with [_ (A) _ (do (side-effect) (B))] …): side-effect runs before A is entered and outside its protection", detail="ret += ctx only when i == 0")
     # nested arms recurse with the remaining managers and the same body, then break
